@@ -952,6 +952,63 @@ func steerStaleSubmitAcrossRestart(workers int, emit func(string)) {
 	flushNotes(e.rec, emit)
 }
 
+// steerServeWhileServing: a second Serve on the service that is being served is refused and changes
+// nothing: callbacks are still accepted and run, Shutdown still shuts it down, Serve returns, and
+// it can be served again.
+func steerServeWhileServing(workers int, emit func(string)) {
+	e, err := newSteer(workers)
+	if err != nil {
+		return
+	}
+	defer e.close()
+	emit("reset")
+	second := make(chan error, 1)
+	go func() { second <- e.s.Serve(recconn.New()) }()
+	select {
+	case err := <-second:
+		if err == nil {
+			e.rec.add("h.serve2.accepted", "", 0)
+		}
+	case <-time.After(3 * time.Second):
+		e.rec.add("h.serve2.accepted", "", 0)
+	}
+	for k := 0; k < 2; k++ {
+		ran := make(chan struct{})
+		e.submit("after", "", func(int) { close(ran) })
+		select {
+		case <-ran:
+		case <-time.After(2 * time.Second):
+			e.rec.add("h.refused.running", "", 0)
+		}
+	}
+	e.rec.add("h.shutdown.begin", "", 0)
+	sd := make(chan error, 1)
+	go func() { sd <- e.s.Shutdown() }()
+	select {
+	case err := <-sd:
+		if err != nil {
+			e.rec.add("h.shutdown.refused", "", 0)
+		}
+		e.rec.add("h.shutdown.end", "", 0)
+	case <-time.After(3 * time.Second):
+		e.rec.add("h.shutdown.hung", "", 0)
+		atomic.StoreInt32(&poolHung, 1)
+		flushNotes(e.rec, emit)
+		return
+	}
+	select {
+	case <-e.done:
+	case <-time.After(3 * time.Second):
+		e.rec.add("h.serve.hung", "", 0)
+		atomic.StoreInt32(&poolHung, 1)
+		flushNotes(e.rec, emit)
+		return
+	}
+	e.rec.add("h.connclosed", "", e.conn.ClosedCount())
+	e.serveCycle()
+	flushNotes(e.rec, emit)
+}
+
 func steerAll(emit func(string)) {
 	for _, w := range []int{1, 2, 3} {
 		steerLateSubmit(w, "slow", emit)
@@ -970,5 +1027,6 @@ func steerAll(emit func(string)) {
 		steerSubscribeFails(w, 2, emit)
 		steerShutdownDuringSubscribe(w, emit)
 		steerStaleSubmitAcrossRestart(w, emit)
+		steerServeWhileServing(w, emit)
 	}
 }
